@@ -18,6 +18,15 @@ class Undecided(Exception):
     """The analysis cannot decide (anchor vanished, idiom not recognised)."""
 
 
+class ModelViolation(Exception):
+    """A premise of the shared model is positively false in the source (not merely unrecognised): reported as a violation (rule R0) by every
+    property whose decision rests on that model."""
+
+    def __init__(self, at, construct, reason, file=None, line=None, witness=None):
+        super().__init__(reason)
+        self.at, self.construct, self.reason, self.file, self.line, self.witness = at, construct, reason, file, line, witness
+
+
 class Finding:
     def __init__(self, rule, at, construct, reason, file=None, line=None, witness=None):
         self.rule = rule  # e.g. "R1"
